@@ -184,6 +184,41 @@ void vf_harness()
 
 
 
+def unit_lhs_collocated():
+    """collocated cokriging: the neighbourhood then holds the TARGET itself as an extra sample, designated by rank -1"""
+    import copy, re
+    from specs import C01
+    u = copy.copy(C01.unit_lhs_assembly(2, 2, 2))
+    u.name = "C04.lhsCalcul.collocated"
+    u.prelude = u.prelude.replace("static void VF_p_setTarget(int which, bool t) {}",
+                                  "int g_t1, g_t2;  /* ghost: 'is the target' flag of the two work points */\nstatic void VF_p_setTarget(int which, bool t) { if (which == 1) g_t1 = t; else g_t2 = t; }")
+    u.prelude = u.prelude.replace("static void VF_evalCovKriging(void) {",
+                                  "static void VF_evalCovKriging(void) { __CPROVER_assert((g_t1 || g_p1 >= 0) && (g_t2 || g_p2 >= 0), \"a work point that is not flagged as the target designates a data sample (rank >= 0): the pre-projected points are indexed by that rank\");")
+    u.harness = """
+void vf_harness(void)
+{
+  vf_havoc_inputs();
+  _nech = NE; _nvar = NV; _nfeq = NB; _nbfl = NB; _flagVerr = 0; _flagCode = 0;
+  /* collocated option: the last sample of the neighbourhood is the target itself (ANeigh::_updateColCok pushes rank -1) */
+  for (int k = 0; k < NE; k++) { _nbgh[k] = W_nbgh[k]; __CPROVER_assume(0 <= _nbgh[k] && _nbgh[k] < NE); }
+  if (W_stationary) _nbgh[NE - 1] = -1;
+  for (int a = 0; a < NEQF; a++) for (int b = 0; b < NEQF; b++) LF[a][b] = 0.;
+  g_t1 = 0; g_t2 = 0;
+  KrigingSystem_lhsCalcul();
+  VF_REACH();
+}
+"""
+    u.checks = []
+    u.split = False
+    u.canaries = []
+    u.native = None
+    u.claim = ("KrigingSystem::_lhsCalcul with the collocated option (the target is an extra sample of rank -1): every covariance evaluation is asked either for the "
+               "target (flagged as such) or for a data sample of rank >= 0 - the pre-projected points of the optimised covariance are indexed by that rank")
+    u.assumptions = ["same environment as unit C01.lhsCalcul.assembly; only the designation of the two work points is checked here"]
+    return u
+
+
+
 def units(tier):
     nmax = 6 if tier == "quick" else 10
     out = []
@@ -194,6 +229,7 @@ def units(tier):
     out.append(unit_optim_cell())
     out.append(unit_xvalid_unique())
     out.append(unit_zstar_mean())
+    out.append(unit_lhs_collocated())
     return out
 
 
